@@ -60,10 +60,36 @@ type e2eCase struct {
 	Code uint8  `json:"response_code"`
 	Con  bool   `json:"confirmable"`
 	Tr   string `json:"transport"`
+	Env  int    `json:"option_environment"`
+}
+
+// nEnv option environments around the No-Response option: what else the request carries must not matter.
+const nEnv = 6
+
+var envNames = []string{"path+NR", "NR-alone", "path+NR+2049(above 258)", "path+query+content-format+NR+2050+65000", "if-match x2+uri-host+path x2+accept+size1+NR", "if-none-match+path+NR+2049+2053"}
+
+func envOpts(env int, v uint32) []ref.Opt {
+	nr := ref.Opt{ID: 258, Val: ref.Uint(v)}
+	path := ref.Opt{ID: 11, Val: []byte("x")}
+	switch env % nEnv {
+	case 1:
+		return []ref.Opt{nr}
+	case 2:
+		return []ref.Opt{path, nr, {ID: 2049, Val: []byte{8, 0}}}
+	case 3:
+		return []ref.Opt{path, {ID: 12, Val: nil}, {ID: 15, Val: []byte("a=b")}, nr, {ID: 2050, Val: []byte("zz")}, {ID: 65000, Val: []byte{1, 2, 3}}}
+	case 4:
+		// (a No-Response value longer than one byte is outside the option's defined length and is, correctly, ignored as an
+		// unrecognised elective option — so no padded encoding here)
+		return []ref.Opt{{ID: 1, Val: []byte{1}}, {ID: 1, Val: []byte{2}}, {ID: 3, Val: []byte("h")}, path, path, {ID: 17, Val: nil}, {ID: 60, Val: []byte{9}}, nr}
+	case 5:
+		return []ref.Opt{{ID: 5, Val: nil}, path, nr, {ID: 2049, Val: []byte{8, 0}}, {ID: 2053, Val: []byte{8, 0}}}
+	}
+	return []ref.Opt{path, nr}
 }
 
 func TestRun(t *testing.T) {
-	rec := vr.New("C20", "exhaustive: 32 No-Response values x 256 response codes (+ PRNG 32-bit values x 256 codes) on IsNoResponseCode and ResponseWriter.SetResponse; wire: every (value 0..31 plus PRNG values 32..255, code 0..255) x {CON,NON} on a real udp connection and on a real tcp connection, emitted datagrams/frames inspected. Distinct = (kind,value,code[,type]) visited once by construction.")
+	rec := vr.New("C20", "exhaustive: 32 No-Response values x 256 response codes (+ PRNG 32-bit values x 256 codes) on IsNoResponseCode and ResponseWriter.SetResponse; wire: every (value 0..31 plus PRNG values 32..255, code 0..255) x {CON,NON} on a real udp connection and on a real tcp connection, emitted datagrams/frames inspected; every request in one of 6 option environments (No-Response alone, with lower options, with options numbered above 258 such as 2049/2053/65000, behind many lower options). Distinct = (kind,value,code[,type]) visited once by construction.")
 	defer rec.Flush(true)
 	seed := vr.Seed()
 	rnd := rand.New(rand.NewSource(seed))
@@ -87,18 +113,22 @@ func TestRun(t *testing.T) {
 			}
 			// through the response writer
 			if v <= 255 {
-				buf := make([]byte, 4)
-				opts, _, _ := message.Options{}.SetUint32(buf, message.NoResponse, v)
-				resp := pool.NewMessage(context.Background())
-				w := responsewriter.New[nopClient](resp, nopClient{}, opts...)
-				err := w.SetResponse(codes.Code(code), message.TextPlain, bytes.NewReader([]byte("x")))
-				if (err != nil) != want {
-					rec.Violation(sig("SetResponse", v, code, want), fmt.Sprintf("SetResponse(code=%d.%02d) with request No-Response=%d returned %v, rule says suppressed=%v", code>>5, code&31, v, err, want), map[string]any{"value": v, "code": code})
+				for env := 0; env < nEnv; env++ {
+					var opts message.Options
+					for _, o := range envOpts(env, v) {
+						opts = append(opts, message.Option{ID: message.OptionID(o.ID), Value: o.Val})
+					}
+					resp := pool.NewMessage(context.Background())
+					w := responsewriter.New[nopClient](resp, nopClient{}, opts...)
+					err := w.SetResponse(codes.Code(code), message.TextPlain, bytes.NewReader([]byte("x")))
+					if (err != nil) != want {
+						rec.Violation(sig("SetResponse", v, code, want), fmt.Sprintf("SetResponse(code=%d.%02d) with request No-Response=%d (request options: %s) returned %v, rule says suppressed=%v", code>>5, code&31, v, envNames[env], err, want), map[string]any{"value": v, "code": code, "env": envNames[env]})
+					}
+					if err != nil && resp.IsModified() {
+						rec.Violation("C20/SetResponse/refused-but-message-modified", fmt.Sprintf("code=%d value=%d", code, v), nil)
+					}
+					rec.Count("setresponse_calls", 1)
 				}
-				if err != nil && resp.IsModified() {
-					rec.Violation("C20/SetResponse/refused-but-message-modified", fmt.Sprintf("code=%d value=%d", code, v), nil)
-				}
-				rec.Count("setresponse_calls", 1)
 			}
 			rec.Count("isnoresponsecode_calls", 1)
 		}
@@ -126,7 +156,14 @@ func TestRun(t *testing.T) {
 	var cases []e2eCase
 	for _, v := range wireValues {
 		for c := 0; c < 256; c++ {
-			cases = append(cases, e2eCase{v, uint8(c), true, "udp"}, e2eCase{v, uint8(c), false, "udp"}, e2eCase{v, uint8(c), false, "tcp"})
+			// quick: one option environment per (value, code, type, transport), rotating; thorough: all of them for the values 0..31
+			envs := []int{len(cases) / 3 % nEnv}
+			if vr.Thorough() && v < 32 {
+				envs = []int{0, 1, 2, 3, 4, 5}
+			}
+			for _, e := range envs {
+				cases = append(cases, e2eCase{v, uint8(c), true, "udp", e}, e2eCase{v, uint8(c), false, "udp", (e + 1) % nEnv}, e2eCase{v, uint8(c), false, "tcp", (e + 2) % nEnv})
+			}
 		}
 	}
 	rnd.Shuffle(len(cases), func(i, j int) { cases[i], cases[j] = cases[j], cases[i] })
@@ -193,7 +230,7 @@ func runUDP(rec *vr.Rec, cases []e2eCase) {
 				typ = 0
 			}
 			m := ref.Msg{Type: typ, Code: 2, MID: uint16(i + 1), Token: tokenOf(i),
-				Opts: []ref.Opt{{ID: 11, Val: []byte("x")}, {ID: 258, Val: ref.Uint(c.V)}}, Payload: []byte{c.Code}}
+				Opts: envOpts(c.Env, c.V), Payload: []byte{c.Code}}
 			if err := cc.Process(nil, ref.EncodeUDP(m)); err != nil {
 				rec.Violation("C20/harness/process-error", err.Error(), c)
 			}
@@ -316,7 +353,7 @@ func runTCP(rec *vr.Rec, cases []e2eCase) {
 		}
 		var stream []byte
 		for i, c := range part {
-			m := ref.Msg{Code: 2, Token: tokenOf(i), Opts: []ref.Opt{{ID: 11, Val: []byte("x")}, {ID: 258, Val: ref.Uint(c.V)}}, Payload: []byte{c.Code}}
+			m := ref.Msg{Code: 2, Token: tokenOf(i), Opts: envOpts(c.Env, c.V), Payload: []byte{c.Code}}
 			stream = append(stream, ref.EncodeTCP(m)...)
 		}
 		stream = append(stream, ref.EncodeTCP(ref.Msg{Code: 1, Token: []byte{0x7f, 1, 2, 3}, Payload: []byte{0x45}})...)
